@@ -197,7 +197,12 @@ func (p *c34) Run(c fw.Case, r *fw.Rec) {
 			e.pkg = "main"
 			src = "package main\n\n"
 		}
-		src += "var v" + fmt.Sprint(len(fsys.ents)) + " int\n"
+		if ext == ".xgo" || ext == ".gop" || isGo {
+			// a package-level variable with an initialiser: valid in a normal file, an error in class-file mode
+			src += "var v" + fmt.Sprint(len(fsys.ents)) + " = " + fmt.Sprint(len(fsys.ents)) + "\n"
+		} else {
+			src += "var v" + fmt.Sprint(len(fsys.ents)) + " int\n"
+		}
 		if e.broke {
 			src += "func (\n"
 		}
